@@ -78,9 +78,12 @@ Proof. apply sorted_NoDup; [apply name_ltb_irrefl|apply name_ltb_trans]. Qed.
 (* ---------------------------------------------------------------------------------------------- *)
 (* _make_column_names, the nestedness predicates *)
 
-Lemma bridge_make_column_names c : gen_make_column_names c = default_names c.
+(* [f"var_{i}" for i in range(c)], wherever the generated code spells it out (the private helper
+   _make_column_names is inlined into its callers by the translator) *)
+Lemma bridge_make_column_names c :
+  map (fun i => fstr [118; 97; 114; 95] i) (py_range c) = default_names c.
 Proof.
-  unfold gen_make_column_names, default_names, py_range, fstr, default_name.
+  unfold default_names, py_range, fstr, default_name.
   pose proof (map_of_nat_seq 0 c) as H. cbn [Z.of_nat] in H. rewrite <- H, map_map. reflexivity.
 Qed.
 
@@ -92,15 +95,15 @@ Section Bridge.
   Definition wf_nested_ (n c T : nat) x : Prop := wf_panel n c T (n_rows x) /\ length (n_cols x) = c.
 
   Lemma bridge_cell_is_series_or_array (c : cell V) :
-    gen_cell_is_series_or_array c = cell_nested c.
+    isinstance_cell c [TySeries; TyNdarray] = cell_nested c.
   Proof. destruct c; reflexivity. Qed.
 
   Lemma bridge_are_columns_nested (f : frame V) :
     gen_are_columns_nested f = are_columns_nested f.
   Proof.
-    unfold gen_are_columns_nested, gen_nested_cell_mask, bf_any, frame_applymap, are_columns_nested.
-    cbn [fst snd]. do 2 f_equal. apply map_ext. intro row. apply map_ext.
-    apply bridge_cell_is_series_or_array.
+    unfold gen_are_columns_nested, bf_any, frame_applymap, are_columns_nested.
+    cbn [fst snd]. do 2 f_equal. apply map_ext. intro row. apply map_ext. intro c.
+    cbv beta. rewrite ?orb_false_r. apply bridge_cell_is_series_or_array.
   Qed.
 
   Lemma bridge_is_nested_dataframe (f : frame V) :
@@ -110,8 +113,9 @@ Section Bridge.
     rewrite bridge_are_columns_nested. reflexivity.
   Qed.
 
-  Lemma bridge_convert_series_cell_to_numpy (c : @ncell V) :
-    gen_convert_series_cell_to_numpy c = (KArray, snd c).
+  (* Series.to_numpy() of a Series cell, an array cell as it is: the values either way *)
+  Lemma convert_cell_values (c : @ncell V) :
+    cell_values (if cell_is_series c then cell_to_numpy c else c) = snd c.
   Proof. destruct c as [[|] l]; reflexivity. Qed.
 
   (* -------------------------------------------------------------------------------------------- *)
@@ -219,9 +223,13 @@ Section Bridge.
     (* whichever way the names are selected / validated: decide it, then run the loop *)
     destruct cn as [l|]; cbn [names_or_default] in *.
     - destruct Hn as [Hl _]. rewrite ?Hl, ?Nat.eqb_refl. cbn [negb rbind]. f_equal.
+      try (replace (combine (py_range c) l) with (py_enumerate l)
+            by (unfold py_enumerate, py_range; rewrite Hlen; reflexivity)).
       apply (columns_loop n c T X (kind_of b) l _ Hwf Hlen Hnd).
       intros df [j cl]. destruct b; cbn [fst snd kind_of]; rewrite ?map_map; reflexivity.
     - rewrite ?bridge_make_column_names. cbn [negb rbind]. f_equal.
+      try (replace (combine (py_range c) (default_names c)) with (py_enumerate (default_names c))
+            by (unfold py_enumerate, py_range; rewrite Hlen; reflexivity)).
       apply (columns_loop n c T X (kind_of b) (default_names c) _ Hwf Hlen Hnd).
       intros df [j cl]. destruct b; cbn [fst snd kind_of]; rewrite ?map_map; reflexivity.
   Qed.
@@ -280,7 +288,7 @@ Section Bridge.
     intros Hwf Hc. rewrite (mi_to_3d_rows n c T p Hwf cols Hc).
     unfold gen_from_multi_index_to_3d_numpy, mi_nlevels, mi_level_unique, mi_shape1, mi_values,
       np_ravel2, np_reshape3.
-    cbn [Nat.eqb negb is_none orb opt_get m_rows m_cols mi_level]. f_equal.
+    cbn [Nat.eqb negb is_none orb andb opt_get m_rows m_cols mi_level]. f_equal.
     change (map (mi_level 0) (mi_rows T p)) with (map r_inst (mi_rows T p)).
     change (map (mi_level 1) (mi_rows T p)) with (map r_time (mi_rows T p)).
     rewrite (mi_rows_n_instances n c T p Hwf), (mi_rows_n_timepoints n c T p Hwf), !ziota_length.
@@ -444,6 +452,9 @@ Section Bridge.
   Lemma count_true_repeat k : count_true (repeat true k) = length (repeat true k).
   Proof. unfold count_true. induction k as [|k IH]; [reflexivity|]. cbn. rewrite IH. reflexivity. Qed.
 
+  Lemma bools_all_repeat k : bools_all (repeat true k) = true.
+  Proof. unfold bools_all. induction k as [|k IH]; [reflexivity|]. cbn. exact IH. Qed.
+
   Lemma wf_nested_frame n c T x :
     wf_nested_ n c T x ->
     gen_is_nested_dataframe (frame_of_nested x) = true /\
@@ -457,11 +468,13 @@ Section Bridge.
     wf_nested_ n c T x -> gen_from_nested_to_3d_numpy x = Ok (nested_to_3d x).
   Proof.
     intro Hx. destruct (wf_nested_frame n c T x Hx) as [H1 H2].
-    unfold gen_from_nested_to_3d_numpy. rewrite H1, H2, count_true_repeat, Nat.eqb_refl.
+    unfold gen_from_nested_to_3d_numpy.
+    (* "all columns are nested", however the generated code tests it *)
+    rewrite H1, H2, ?count_true_repeat, ?Nat.eqb_refl, ?bools_all_repeat.
     cbn [negb rbind]. f_equal. unfold nested_to_3d, nested_cells. rewrite !map_map.
     rewrite <- (map_id (n_rows x)) at 2. apply map_ext. intro row. rewrite !map_map.
     rewrite <- (map_id row) at 2. apply map_ext. intro s0.
-    rewrite bridge_convert_series_cell_to_numpy. reflexivity.
+    cbv beta. apply convert_cell_values.
   Qed.
 
   (* -------------------------------------------------------------------------------------------- *)
